@@ -439,13 +439,14 @@ impl<'a> Ctl<'a> {
         }
         let waiting: Vec<String> = self.last_wait.iter().filter(|n| !self.settled(n)).cloned().collect();
         let before = self.trace.len();
-        self.free_run(IO_TIMEOUT);
+        // (a thread that was only waiting for a parked one moves within milliseconds)
+        self.free_run(Duration::from_secs(4));
         let progressed = self.trace[before..].iter().any(|t| waiting.iter().any(|n| t.starts_with(&format!("{}@", n)) || t.starts_with(&format!("{}!", n))));
         if progressed || self.exited().is_some() {
             self.proc_.kill();
             return Err(format!("{} (the thread moved on once every parked thread was released: a hook point sits inside a critical section)", e));
         }
-        Ok(Some(format!("{:?} released and never reached another point: not while every other thread was held ({} s), nor during {} s with every thread running freely; the process is alive and blocked", waiting, IO_TIMEOUT.as_secs(), IO_TIMEOUT.as_secs())))
+        Ok(Some(format!("{:?} released and never reached another point: not while every other thread was held ({} s), nor during {} s with every thread running freely; the process is alive and blocked", waiting, IO_TIMEOUT.as_secs(), 4)))
     }
 
     fn target_worker(&self, client: usize) -> Option<usize> {
@@ -964,11 +965,14 @@ pub fn explore(
             scn.env = env;
         }
         let a = run_execution(&scn, &slot, &[], &[])?;
-        let b = run_execution(&scn, &slot, &[], &[])?;
-        let sa: Vec<&String> = a.steps.iter().map(|s| &s.action).collect();
-        let sb: Vec<&String> = b.steps.iter().map(|s| &s.action).collect();
-        if sa != sb || a.end != b.end {
-            return Err(format!("determinism self-test failed for scenario {}: {:?} ({}) vs {:?} ({})", scn.name, sa, a.end, sb, b.end));
+        // (a blocked default schedule is reported below; running it again only costs its timeouts)
+        if a.end != "stuck" {
+            let b = run_execution(&scn, &slot, &[], &[])?;
+            let sa: Vec<&String> = a.steps.iter().map(|s| &s.action).collect();
+            let sb: Vec<&String> = b.steps.iter().map(|s| &s.action).collect();
+            if sa != sb || a.end != b.end {
+                return Err(format!("determinism self-test failed for scenario {}: {:?} ({}) vs {:?} ({})", scn.name, sa, a.end, sb, b.end));
+            }
         }
         // the default schedule is an execution like any other (and is run again below unless the
         // wall cap is used up by then)
@@ -977,7 +981,7 @@ pub fn explore(
         }
         if a.end == "stuck" {
             let mut sum = SchedSummary::default();
-            sum.executions = 2;
+            sum.executions = 1;
             sum.caps_hit.push(format!("scenario {}: the default schedule blocks for good; no deviation explored", scn.name));
             return Ok(sum);
         }
